@@ -260,6 +260,7 @@ def HOp2.target : HOp2 → Option Nat
   | .addRef _ _ => none
   | .newFrom o _ _ => some o
   | .appendLinesOf o _ => some o
+  | .newWithHeader o _ _ => some o
 
 theorem objAt_set_ne (objs : List TObj) (o i : Nat) (x : TObj) (h : i ≠ o) :
     objAt (objs.set o x) i = objAt objs i := by
@@ -285,6 +286,10 @@ theorem step2_frame (objs : List TObj) (op : HOp2) (i : Nat) (h : HOp2.target op
     simp only [step2]
     exact objAt_set_ne _ _ _ _ hne
   | appendLinesOf o j =>
+    have hne : i ≠ o := by intro e; exact h (by simp [HOp2.target, e])
+    simp only [step2]
+    exact objAt_set_ne _ _ _ _ hne
+  | newWithHeader o j k =>
     have hne : i ≠ o := by intro e; exact h (by simp [HOp2.target, e])
     simp only [step2]
     exact objAt_set_ne _ _ _ _ hne
